@@ -104,6 +104,26 @@ class Case:
         self.compare = compare; self.oracle = oracle; self.nontrivial = nontrivial
         self.tag = tag or op; self.profile = profile; self.note = note; self.always_oracle = always_oracle
 
+def release_slice(cases, rng, frac, mode_ops=(), plain_ops=None):
+    """Clones a random slice of the dev-profile cases into the release profile (same input, the release build of impl_svc).
+    mode_ops: operations whose MODEL takes the build profile as an optional last argument (`wrapping` is appended to the model
+    line); plain_ops: operations whose model has no profile argument (None = every other operation). IMPL_ONLY cases included."""
+    out = []
+    for c in cases:
+        if c.profile != 'debug' or rng.random() >= frac: continue
+        if c.op in mode_ops:
+            m = c.model
+            if m is IMPL_ONLY: nm = m
+            elif callable(m): nm = (lambda m_: (lambda ia: (lambda l: l + ' wrapping' if l else l)(m_(ia))))(m)
+            else: nm = m + ' wrapping'
+        elif plain_ops is None or c.op in plain_ops:
+            nm = c.model
+        else:
+            continue
+        out.append(Case(c.op, c.impl, model=nm, compare=c.compare, oracle=c.oracle, nontrivial=c.nontrivial, tag=c.tag + ':release',
+                        profile='release', note=c.note, always_oracle=c.always_oracle))
+    return out
+
 def default_compare(ia, ma):
     if ia.key() != ma.key():
         return 'implementation %r vs model %r' % (ia.raw[:200], ma.raw[:200])
